@@ -434,22 +434,20 @@ struct idrs_g0 { unsigned long xv0, rv0, xsv0, rsv0, wP; };
 /* allocation sizes of the constructor */
 #define ALLOC_IDRS (gs_blen[B_G] == self->prm.s && gs_blen[B_U] == self->prm.s && gs_blen[B_P] == self->prm.s && gs_hdim[0] == self->prm.s && gs_hdim[1] == self->prm.s \
                     && gs_sclen[SC_f] == self->prm.s && gs_sclen[SC_c] == self->prm.s && self->prm.s <= (1u << 20))
-/* number of update steps so far = writes of the carried residual r that are not residual() calls */
-#define STEPS_R (self->r->version - g0.rv0 - gs.res.calls)
 #define BAS_KEEP (gs.bas.upto[B_G] >= self->prm.s && gs.bas.upto[B_U] >= self->prm.s && gs.bas.upto[B_P] == self->prm.s && gs.bas.writes[B_P] == g0.wP)
 #define SC_KEEP (gs.sc.lo[SC_f] == 0 && gs.sc.lo[SC_c] == 0 && gs.sc.hrows >= self->prm.s)
 #define VEC_KEEP0 (x_p->id == 2 && !x_p->readonly && x_p->defined && WS_KEEP(self->r, 3) && WS_KEEP(self->v, 4) && WS_KEEP(self->t, 5) \
                   && self->x_s->id == 6 && self->r_s->id == 7 && self->x_s->readonly == !self->prm.smoothing && self->r_s->readonly == !self->prm.smoothing)
 #define VEC_KEEP (VEC_KEEP0 && self->r->defined && (self->prm.smoothing ==> (self->x_s->defined && self->r_s->defined)))
-/* the carried residual and x advance in lockstep; with smoothing so do r_s and x_s; the last norm evaluated (RN) is that of the (smoothed) residual in
- * its current state */
-#define PAIRING(RN) (gs.res.calls >= 1 && (self->prm.replacement || (gs.res.calls == 1 && gs.res.xver == g0.xv0)) \
+/* state after n update steps: the carried residual r and x have advanced in lockstep (r: one write per step plus the residual() calls; x: one write per
+ * step); with smoothing so have r_s and x_s (after their initial copy); the last norm evaluated (RN) is that of the (smoothed) residual in its current state */
+#define PAIR(n, RN) (gs.res.calls >= 1 && (self->prm.replacement || (gs.res.calls == 1 && gs.res.xver == g0.xv0)) \
                  && gs.res.idf == 1 && gs.res.idx == 2 && gs.res.idr == 3 && gs.res.idA == A_p->id \
-                 && x_p->version == g0.xv0 + STEPS_R \
-                 && (self->prm.smoothing ==> (self->r_s->version == g0.rsv0 + 1 + STEPS_R && self->x_s->version == g0.xsv0 + 1 + STEPS_R)) \
+                 && x_p->version == g0.xv0 + (n) && self->r->version == g0.rv0 + (n) + gs.res.calls \
+                 && (self->prm.smoothing ==> (self->r_s->version == g0.rsv0 + 1 + (n) && self->x_s->version == g0.xsv0 + 1 + (n))) \
                  && gs.norm.id0 == 1 && gs.norm.calls == 2 && (RN) == gs.norm.val \
-                 && ((self->prm.smoothing && STEPS_R > 0) ? (gs.norm.id == 7 && gs.norm.ver == self->r_s->version) : (gs.norm.id == 3 && gs.norm.ver == self->r->version)) \
-                 && (STEPS_R == 0 ==> (RN) == g_norm_in1))
+                 && ((self->prm.smoothing && (n) > 0) ? (gs.norm.id == 7 && gs.norm.ver == self->r_s->version) : (gs.norm.id == 3 && gs.norm.ver == self->r->version)) \
+                 && ((n) == 0 ==> (RN) == g_norm_in1))
 
 /* ---- contract of the statement  for(unsigned k = 0; k < prm.s; ++k) { ... }  of operator() (ENFORCED by unit solver_idrs_kloop) ----
  * in: the locals iter, res_norm, om, eps of operator();  out: the new values of iter and res_norm;  a breakdown throws (g_thrown) */
@@ -457,13 +455,13 @@ typedef struct kret { size_t iter; V res_norm; } kret;
 #define KRET __CPROVER_return_value
 #define KLOOP_CONTRACT \
 __CPROVER_requires(UF_AXIOMS && ALLOC_IDRS && g_thrown == 0 && iter_in < self->prm.maxiter) \
-__CPROVER_requires(VEC_KEEP && BAS_KEEP && SC_KEEP && gs.sc.hi[SC_f] >= self->prm.s && PAIRING(res_norm_in) && STEPS_R == iter_in) \
+__CPROVER_requires(VEC_KEEP && BAS_KEEP && SC_KEEP && gs.sc.hi[SC_f] >= self->prm.s && PAIR(iter_in, res_norm_in)) \
 __CPROVER_assigns(*x_p, g_thrown, *self->r, *self->v, *self->t, *self->x_s, *self->r_s, gs) \
 __CPROVER_ensures(VEC_KEEP0 && BAS_KEEP) \
 __CPROVER_ensures(g_thrown ==> self->prm.s > 0) \
-__CPROVER_ensures(!g_thrown ==> (KRET.iter <= self->prm.maxiter && VEC_KEEP && SC_KEEP && PAIRING(KRET.res_norm))) \
-/* one x / r update per pass; the pass that meets the tolerance is not counted */ \
-__CPROVER_ensures(!g_thrown ==> (STEPS_R == KRET.iter || (STEPS_R == KRET.iter + 1 && UF_LE(KRET.res_norm, eps) && KRET.iter < self->prm.maxiter)))
+__CPROVER_ensures(!g_thrown ==> (KRET.iter <= self->prm.maxiter && VEC_KEEP && SC_KEEP)) \
+/* one x / r update per pass, each counted -- but the pass that meets the tolerance is not counted */ \
+__CPROVER_ensures(!g_thrown ==> (PAIR(KRET.iter, KRET.res_norm) || (PAIR(KRET.iter + 1, KRET.res_norm) && UF_LE(KRET.res_norm, eps) && KRET.iter < self->prm.maxiter)))
 """
 
 IDRS_T = IDRS_COMMON + r"""
@@ -501,27 +499,21 @@ __CPROVER_assigns(*x_p, g_thrown, *self->r, *self->v, *self->t, *self->x_s, *sel
 __CPROVER_ensures(RET.iters <= self->prm.maxiter)
 /* C15: zero right-hand side */
 __CPROVER_ensures(EARLY(self) ==> (!g_thrown && RET.iters == 0 && RET.resid == g_norm_in0 && gs.clear.calls == 1 && gs.clear.id == x_p->id && gs.res.calls == 0))
-/* C01: the number returned is (last norm evaluated) / ||rhs||; that norm was taken of the carried residual r -- with smoothing, once a step has
- * been made, of the smoothed residual r_s -- in its final state */
+/* C01: the number returned is (last norm evaluated) / ||rhs|| */
 __CPROVER_ensures((!EARLY(self) && !g_thrown) ==> (RET.resid == UF_DIV(gs.norm.val, NRHS(self)) && gs.norm.id0 == rhs_p->id))
-__CPROVER_ensures((!EARLY(self) && !g_thrown) ==> ((SM(self) && self->r_s->version - OLD(self->r_s->version) >= 2)
-                                    ? (gs.norm.id == self->r_s->id && gs.norm.ver == self->r_s->version)
-                                    : (gs.norm.id == self->r->id && gs.norm.ver == self->r->version)))
 /* C01: the carried residual starts as residual(rhs, A, x, r) of the initial guess; it is recomputed from (rhs, A, x) only with prm.replacement */
 __CPROVER_ensures(!EARLY(self) ==> (gs.res.calls >= 1 && (self->prm.replacement || gs.res.calls == 1) && gs.res.idf == rhs_p->id && gs.res.idA == A_p->id
                                     && gs.res.idx == x_p->id && gs.res.idr == self->r->id))
 __CPROVER_ensures((!EARLY(self) && !self->prm.replacement) ==> gs.res.xver == OLD(x_p->version))
-/* ... and every update of x is paired with one update of the carried residual: steps = #writes of r that are not residual() calls;
- * x is written once per step (plus the final copy(x_s, x) with smoothing); with smoothing x_s and r_s are written once per step */
-__CPROVER_ensures((!EARLY(self) && !g_thrown && !SM(self)) ==> x_p->version == OLD(x_p->version) + (self->r->version - OLD(self->r->version) - gs.res.calls))
-__CPROVER_ensures((!EARLY(self) && !g_thrown && SM(self) && !CONV(self)) ==> (x_p->version == OLD(x_p->version) + (self->r->version - OLD(self->r->version) - gs.res.calls) + 1
-                                    && gs.copy.idx == self->x_s->id && gs.copy.idy == x_p->id && gs.copy.yver == x_p->version
-                                    && self->x_s->version - OLD(self->x_s->version) == self->r_s->version - OLD(self->r_s->version)
-                                    && self->x_s->version == OLD(self->x_s->version) + 1 + (self->r->version - OLD(self->r->version) - gs.res.calls)))
-/* the count returned is the number of steps, or one less when the last step met the tolerance (the code does not count that step) */
-__CPROVER_ensures((!EARLY(self) && !g_thrown) ==> (self->r->version - OLD(self->r->version) - gs.res.calls == RET.iters
-                                    || (self->r->version - OLD(self->r->version) - gs.res.calls == RET.iters + 1 && UF_LE(gs.norm.val, EPSV(self)))))
-__CPROVER_ensures((!EARLY(self) && !g_thrown) ==> self->r->version - OLD(self->r->version) - gs.res.calls <= self->prm.maxiter)
+/* C01: n update steps were made, n = the count returned -- or one more when the last step met the tolerance (the code does not count that step): every update
+ * of x is paired with one update of the carried residual r (x, r: one write per step, plus residual() calls for r and the final copy(x_s, x) with smoothing;
+ * x_s, r_s: the initial copy and one write per step); the norm reported was taken of r -- with smoothing, once a step has been made, of r_s -- in its final state */
+#define DONE(n) (self->r->version == OLD(self->r->version) + (n) + gs.res.calls \
+                 && x_p->version == OLD(x_p->version) + (n) + ((SM(self) && !CONV(self)) ? 1 : 0) \
+                 && ((SM(self) && !CONV(self)) ==> (self->x_s->version == OLD(self->x_s->version) + 1 + (n) && self->r_s->version == OLD(self->r_s->version) + 1 + (n) \
+                                                     && gs.copy.idx == self->x_s->id && gs.copy.idy == x_p->id && gs.copy.yver == x_p->version)) \
+                 && ((SM(self) && (n) > 0) ? (gs.norm.id == self->r_s->id && gs.norm.ver == self->r_s->version) : (gs.norm.id == self->r->id && gs.norm.ver == self->r->version)))
+__CPROVER_ensures((!EARLY(self) && !g_thrown) ==> (DONE(RET.iters) || (DONE(RET.iters + 1) && UF_LE(gs.norm.val, EPSV(self)) && RET.iters < self->prm.maxiter)))
 /* C01: stopping before the budget is exhausted means the reported residual passed the test (res_norm <= eps, or the negation of res_norm > eps) */
 __CPROVER_ensures((!EARLY(self) && !g_thrown && RET.iters < self->prm.maxiter) ==> (UF_LE(gs.norm.val, EPSV(self)) || !UF_LESS(EPSV(self), gs.norm.val)))
 /* C15: converged initial guess: nothing but the residual and its norm is computed */
@@ -565,8 +557,7 @@ __CPROVER_decreases(prm.s - j)
 """
 ID_MAIN = r"""
 __CPROVER_assigns(iter, res_norm, om, g_thrown, *x_p, *self->r, *self->v, *self->t, *self->x_s, *self->r_s, gs)
-__CPROVER_loop_invariant(iter <= prm.maxiter && g_thrown == 0 && VEC_KEEP && BAS_KEEP && SC_KEEP && PAIRING(res_norm))
-__CPROVER_loop_invariant(STEPS_R == iter)
+__CPROVER_loop_invariant(iter <= prm.maxiter && g_thrown == 0 && VEC_KEEP && BAS_KEEP && SC_KEEP && PAIR(iter, res_norm))
 """
 ID_F = r"""
 __CPROVER_assigns(i, gs.sc)
@@ -575,8 +566,8 @@ __CPROVER_decreases(prm.s - i)
 """
 ID_K = r"""
 __CPROVER_assigns(k, iter, res_norm, g_thrown, *x_p, *self->r, *self->v, *self->t, *self->x_s, *self->r_s, gs)
-__CPROVER_loop_invariant(k <= prm.s && iter < prm.maxiter && g_thrown == 0 && VEC_KEEP && BAS_KEEP && SC_KEEP && PAIRING(res_norm))
-__CPROVER_loop_invariant(STEPS_R == iter && gs.sc.hi[SC_f] >= prm.s && gs.sc.hi[SC_c] >= k)
+__CPROVER_loop_invariant(k <= prm.s && iter < prm.maxiter && g_thrown == 0 && VEC_KEEP && BAS_KEEP && SC_KEEP && PAIR(iter, res_norm))
+__CPROVER_loop_invariant(gs.sc.hi[SC_f] >= prm.s && gs.sc.hi[SC_c] >= k)
 __CPROVER_decreases(prm.s - k)
 """
 ID_CI = r"""
@@ -688,8 +679,8 @@ KLOOP_CONTRACT
 /*@CUT:consts@*/
 /*@CUT:khead@*/
 __CPROVER_assigns(k, iter, res_norm, g_thrown, *x_p, *self->r, *self->v, *self->t, *self->x_s, *self->r_s, gs)
-__CPROVER_loop_invariant(k <= prm.s && iter < prm.maxiter && g_thrown == 0 && VEC_KEEP && BAS_KEEP && SC_KEEP && PAIRING(res_norm))
-__CPROVER_loop_invariant(STEPS_R == iter && gs.sc.hi[SC_f] >= prm.s && gs.sc.hi[SC_c] >= k)
+__CPROVER_loop_invariant(k <= prm.s && iter < prm.maxiter && g_thrown == 0 && VEC_KEEP && BAS_KEEP && SC_KEEP && PAIR(iter, res_norm))
+__CPROVER_loop_invariant(gs.sc.hi[SC_f] >= prm.s && gs.sc.hi[SC_c] >= k)
 __CPROVER_decreases(prm.s - k)
   {
 /*@CUT:kbody@*/
